@@ -412,7 +412,15 @@ EvPanel(ln, w) ==
     IF ~usable THEN Res(w, OutcomeChecks(ln, "args"), {})
     ELSE IF OpenRel(w, f) THEN Skip(w)
     ELSE Res(w, OutcomeChecks(ln, "") \o
-                (IF ln.res.panic THEN <<>> ELSE PanelChecks(w, QuerySet(w, f), ln.panel, "C03")), {})
+                (IF ln.res.panic THEN <<>>
+                 ELSE PanelChecks(w, QuerySet(w, f), ln.panel, "C03")
+                      \o (IF Core(f).k = "rel"
+                          THEN (* C05 / C06: what a relation filter - registered or not - yields for target T are exactly the   *)
+                               (* entities whose current target is T: nobody is missing, nobody foreign shows up              *)
+                               << Chk("C05", "panel-relation-filter-selects-its-target",
+                                      ln.panel.count = Cardinality(QuerySet(w, f)) /\ Range(ln.panel.at) = QuerySet(w, f)),
+                                  Chk("C06", "panel-nothing-foreign-under-a-target", Range(ln.panel.at) \subseteq QuerySet(w, f)) >>
+                          ELSE <<>>)), {})
 
 EvOpenQuery(ln, w) ==
     LET f == ln.args.f usable == FilterUsable(w, f) IN
